@@ -5,6 +5,7 @@ CONSTANTS
   MaxRefs = 2
   Names <- NameSet
   Hows <- HowAll
-  DumpMod = 1
+  Positions <- Pos1
+  DumpMod = 3
 INVARIANT SiblingsDoNotShadow
 CONSTRAINT Dump
